@@ -117,4 +117,54 @@ theorem checkAttrListL_where (specs : List (String × Bool)) (attrs : List Attr)
           · exact Nat.lt_succ_self _
           · exact hseen1 s hs'
 
+/-! ### field attribute errors -/
+
+theorem attrIdxFrom_none (n : String) (attrs : List Attr) : ∀ i,
+    attrIdxFrom n i attrs = none ↔ attrs.find? (fun a => a.named n) = none := by
+  induction attrs with
+  | nil => intro i; simp [attrIdxFrom]
+  | cons a rest ih =>
+    intro i
+    simp only [attrIdxFrom, List.find?_cons]
+    cases h : a.named n with
+    | true => simp
+    | false => simpa using ih (i + 1)
+
+theorem attrIdxFrom_lt (n : String) (attrs : List Attr) : ∀ i j,
+    attrIdxFrom n i attrs = some j → i ≤ j ∧ j < i + attrs.length := by
+  induction attrs with
+  | nil => intro i j h; simp [attrIdxFrom] at h
+  | cons a rest ih =>
+    intro i j h
+    simp only [attrIdxFrom] at h
+    cases hn : a.named n with
+    | true =>
+      simp only [hn, if_true, Option.some.injEq] at h
+      subst h; simp only [List.length_cons]; omega
+    | false =>
+      simp only [hn] at h
+      have := ih (i + 1) j (by simpa using h)
+      simp only [List.length_cons]; omega
+
+/-- forgetting the locations gives the proven per-field checks -/
+theorem verifyFieldL_kinds (p : Program) (d : Option AVal) (t : TypeInfo) (f : Field) :
+    (verifyFieldL p d t f).map (·.1) = verifyByteOrder p d t f ++ verifyRequires p f := by
+  simp [verifyFieldL, List.map_map, Function.comp_def]
+
+/-- a `[requires]` placement error points at the field's own `[requires]` attribute -/
+theorem requires_located (p : Program) (f : Field) (k : EK) (hk : k ∈ verifyRequires p f)
+    (hr : k = .requiresArray ∨ k = .requiresType) :
+    ∃ i, fieldErrAt f k = .attrValue i ∧ i < f.attrs.length := by
+  have hsome : attrIdxFrom "requires" 0 f.attrs ≠ none := by
+    intro hnone
+    have hf := (attrIdxFrom_none "requires" f.attrs 0).1 hnone
+    have hg : getAttr f.attrs "requires" = none := by simp [getAttr, hf]
+    simp [verifyRequires, hg] at hk
+  cases hi : attrIdxFrom "requires" 0 f.attrs with
+  | none => exact absurd hi hsome
+  | some i =>
+    have hlt := (attrIdxFrom_lt "requires" f.attrs 0 i hi).2
+    refine ⟨i, ?_, by omega⟩
+    rcases hr with rfl | rfl <;> simp [fieldErrAt, ownAt, hi]
+
 end Emboss.Constraints
